@@ -237,15 +237,20 @@ def check_inimg(prog: Program, res: Result) -> None:
         res.touch(g)
         sels = []
         for st in walk_function(g.node):
-            if isinstance(st, ast.Assign) and isinstance(st.value, ast.Subscript) and isinstance(st.value.value, ast.Name) and not isinstance(st.value.slice, (ast.Slice, ast.Tuple, ast.Constant)):
-                m = astq.expand_at(g.node, st.value.slice, st, keep=[st.value.value.id])
+            if isinstance(st, ast.Assign) and isinstance(st.value, ast.Subscript) and not isinstance(st.value.slice, (ast.Slice, ast.Tuple, ast.Constant)):
+                base_names = [n_.id for n_ in ast.walk(st.value.value) if isinstance(n_, ast.Name)]
+                m = astq.expand_at(g.node, st.value.slice, st, keep=base_names)
                 if "xv[-1]" in norm(m) or "yv[-1]" in norm(m):
                     sels.append((st, m))
         res.ob(R, len(sels) == 1, g.qualname, "only in-image animals reach the edge points", f"{len(sels)} in-image selections of the instances: instances are not filtered by the in-image mask", g.where)
         for st, m in sels:
-            pts = st.value.value.id
+            pts = norm(st.value.value)
             where = f"{g.module.relpath}:{st.lineno}"
-            res.ob(R, norm(st.targets[0]) == pts, g.qualname, "the filtered animals replace the unfiltered ones", f"`{short(st, 60)}` stores the filtered animals under another name", where)
+            # the filtered animals are the ones the edge points are taken from
+            tname = norm(st.targets[0])
+            gep = [c_ for c_ in walk_function(g.node) if isinstance(c_, ast.Call) and norm(c_.func).split(".")[-1] == "get_edge_points" and c_.args]
+            okuse = bool(gep) and all(norm(c_.args[0]) == tname and c_.lineno > st.lineno for c_ in gep)
+            res.ob(R, okuse, g.qualname, "the filtered animals are the ones whose edges are drawn", f"`{short(st, 60)}`: get_edge_points does not receive the filtered animals", where)
             inner, ax_any = _reduction(m, "any")
             inner2, ax_all = _reduction(inner, "all") if inner is not None else (None, None)
             res.ob(R, inner2 is not None and ax_any == 1 and ax_all in (-1, 2), g.qualname, "animal kept iff some node is strictly inside: all over (x, y), any over nodes",
